@@ -401,9 +401,36 @@ func init() {
 			{{"b", leaf(0x08)}, {"s", &val{T: 0x02, B: []byte("x")}}, {"i", leaf(0x10)}, {"l", leaf(0x12)}, {"n", &val{T: 0x0A}}, {"d", leaf(0x01)}, {"t", leaf(0x09)}, {"ts", leaf(0x11)}},
 			{{"0", doc(elem{"1", arr(leaf(0x12), leaf(0x12))})}, {"1", arr(doc(elem{"0", leaf(0x10)}))}},
 			{{"a", arr(arr(arr(leaf(0x12), leaf(0x08)), leaf(0x01)), arr())}, {"e", doc()}},
+			// distinct leaves whose dotted names coincide: a dotted field next to a nested one, an array item next to
+			// a field named like its index path, a repeated field name: every view keeps one series per leaf
+			{{"a.b", leaf(0x12)}, {"a", doc(elem{"b", leaf(0x12)})}},
+			{{"v", arr(leaf(0x12), leaf(0x10))}, {"v.1", leaf(0x12)}},
+			{{"x", leaf(0x12)}, {"x", leaf(0x10)}, {"y", leaf(0x12)}},
+			// samples without any metric in front of and behind ordinary ones are handled by the streams below
 		}
 		for _, s := range fixed {
 			emit(s, false)
+		}
+		// 1b. chunks without a single metric between ordinary ones (schema-aware collectors start a new chunk at each
+		// change): every view reports such a chunk as what it is, not as a copy of its neighbour
+		{
+			shapeA := []elem{{"a", leaf(0x12)}, {"b", doc(elem{"c", leaf(0x10)})}}
+			shapeZ := []elem{{"s", &val{T: 0x02, B: []byte("text only")}}}
+			for _, kind := range []string{"dyn", "sdyn"} {
+				for _, order := range []string{"AZA", "ZA", "AZ", "AZZA"} {
+					var ds [][]elem
+					for _, ch := range order {
+						sh := shapeA
+						if ch == 'Z' {
+							sh = shapeZ
+						}
+						ds = append(ds, c02Docs(r, sh, 2)...)
+					}
+					id++
+					qo.printf("Q %d %s n=%d samples=%d metrics=%d maxdepth=%d known_class=0 metricless_chunk=1\n", id, kind, 2, len(ds), 2, 2)
+					runAndRead(ho, ro, id, sameSchemaCase(kind, "", 2, ds), false)
+				}
+			}
 		}
 		// 2. random shapes with grafts for a random subset of the classes
 		for i := 0; i < nshapes; i++ {
